@@ -890,7 +890,23 @@ func (r *Runner) resolveAsteriskBinaryExpressino(v1, v2 interface{}) (interface{
 func (r *Runner) resolveSlashBinaryExpression(v1, v2 interface{}) (interface{}, error) {
 	n1 := convToNumber(v1)
 	n2 := convToNumber(v2)
-	return newDecimalBig().Quo(n1, n2), nil
+	q := newDecimalBig().Quo(n1, n2)
+	// unlike Mul, Quo does not keep its result inside the decimal library's exponent range: a chain of
+	// quotients walked the exponent to 1E-9123372036854775809 and then around the end of the int that
+	// holds it (a 2 KiB formula whose remainder never returned). Out of range is overflow or underflow.
+	if q.IsFinite() && q.Sign() != 0 {
+		switch {
+		case q.Scale() > decimal.MaxScale:
+			neg := q.Signbit()
+			q.SetMantScale(0, 0)
+			if neg {
+				q.Neg(q)
+			}
+		case q.Precision()-q.Scale() > decimal.MaxScale:
+			q.SetInf(q.Signbit())
+		}
+	}
+	return q, nil
 }
 
 func (r *Runner) resolvePercentBinaryExpression(v1, v2 interface{}) (interface{}, error) {
